@@ -2,7 +2,7 @@
    Only statements.  Model: Async/Conn.v.  No panic / no spin of the whole task is proved for every fault position
    and every handler; TERMINATION is proved under either of two conditions on handlers / transport and REFUTED
    without them (known findings F5/F6: a StreamWriter op waiting for Request.lock); proofs in Async/ConnTotal.v. *)
-From FV Require Import Base.Bytes Gen.Generated Parser.ReqModel Parser.ReqTargets Parser.StreamModel Async.Conn Async.ConnWrites Async.ConnTotal Codec.Varint Codec.NV Codec.Vars Parser.ReqWire Parser.AbsStream Parser.StreamSpec Parser.StreamRefine Parser.StreamInv Async.ConnReads Async.LoopTargets Async.LoopProofs Async.LoopTargets2 Async.LoopProofs2.
+From FV Require Import Base.Bytes Gen.Generated Parser.ReqModel Parser.ReqTargets Parser.StreamModel Async.Conn Async.ConnWrites Async.ConnTotal Codec.Varint Codec.NV Codec.Vars Parser.ReqWire Parser.AbsStream Parser.StreamSpec Parser.StreamRefine Parser.StreamInv Async.ConnReads Async.LoopTargets Async.LoopProofs Async.LoopTargets2 Async.LoopProofs2 Async.ReadsWTargets Async.FrameTargets Async.FrameFaultTargets Async.FrameFaultProofs.
 
 (* write_all on the transport, for EVERY write script (faults included): either everything was
    written, or the call failed / the task stopped having written only a PREFIX of the bytes —
@@ -204,4 +204,24 @@ Theorem C12_nothing_after_failed_write :
   let w' := snd (run_loop norm maxc fuel p scripts served w) in
   (exists s : list N, wscript w' = s ++ k :: post) \/ wscript w' = post.
 Proof. exact nothing_after_failed_write. Qed.
+
+(* '... and what was written before is a prefix of a well-formed record sequence': whatever the transport's
+   write script - accept sizes, Pending, and a first fault (zero-length write or write error) at ANY write call
+   -, for every client, buffer size, fuel and handler scripts that propagate I/O errors, the transport log of
+   Token::run is at every end of the run a prefix of a byte string that decodes completely into records
+   (framed, Async/FrameTargets.v; the fault-free case is C10_connection_framing) *)
+Theorem C12_connection_framing_under_faults :
+  forall (norm : bytes -> bytes) (maxc : N) (fuel : nat) (B : N) (scripts : list (list N)) 
+    (w0 : world) (pre : list N) (k : N) (post : list N),
+  B < SIZE_LIMIT - 8 ->
+  world_ok w0 ->
+  wlog w0 = [] ->
+  wscript w0 = pre ++ k :: post ->
+  no_fault pre ->
+  plain_fault k ->
+  scripts_ok false scripts ->
+  Forall writes_known scripts ->
+  Forall prop_script scripts ->
+  let '(_, w') := run_loop norm maxc fuel (new_parser B) scripts 0 w0 in framed (wlog w').
+Proof. exact connection_framing_faults. Qed.
 
